@@ -311,7 +311,13 @@ def finish(pid, tier, seed, t0, proof, run, rule, trusted_base, assumptions, ext
 
 
 def _slug(s):
-    return re.sub(r"[^A-Za-z0-9]+", "-", s).strip("-")[:60]
+    """file-name form of a class key; keys longer than 60 characters keep a short hash so that two long keys with a
+    common prefix do not share a replay file"""
+    t = re.sub(r"[^A-Za-z0-9]+", "-", s).strip("-")
+    if len(t) <= 60:
+        return t
+    import hashlib
+    return t[:52] + "-" + hashlib.sha1(s.encode()).hexdigest()[:7]
 
 
 def write_evidence(pid, tier, seed, t0, proof, run, rule, trusted_base, assumptions, extra_cov, nviol, confirmed):
